@@ -157,6 +157,9 @@ func (r *c34Run) Main(s *sim.Sim) {
 				if op.Think > 0 {
 					time.Sleep(time.Duration(op.Think) * time.Millisecond)
 				}
+				// goroutines woken by timers of the same instant run in an order the runtime
+				// does not fix: let the scheduler order them before they touch shared state
+				s.Yield("c34.op")
 				r.mu.Lock()
 				r.opsDone++
 				if r.RstAt >= 0 && r.opsDone == r.RstAt+1 && len(conns) > 0 {
